@@ -350,9 +350,42 @@ func c13ImportMatrix() []hostile {
 	return out
 }
 
+// c13SeparatorMatrix: small programs holding every comma-separated construct of the language; each
+// comma in turn is replaced by another token (or removed), one replacement per input. Error recovery
+// after a wrong separator is where parsers loop or dereference nil.
+func c13SeparatorMatrix() []hostile {
+	templates := map[string]string{
+		"decls": "import \"std/io\";\n\ntype P struct { .x: i32, .y: i32, .z: i64 };\ntype E enum { A, B, C };\ntype U union { i32, str, bool };\ntype Sh interface {\n    area() -> i32,\n    name() -> str,\n};\n\nfn add(a: i32, b: i32, c: i64) -> i32 {\n    return a + b;\n}\n\nfn main() {\n    io::Println(add(1, 2, 3));\n}\n",
+		"exprs": "import \"std/io\";\n\ntype P struct { .x: i32, .y: i32 };\n\nfn add(a: i32, b: i32) -> i32 {\n    return a + b;\n}\n\nfn main() {\n    let p := { .x = 1, .y = 2 } as P;\n    let q: P = { .x = add(1, 2), .y = 3 };\n    let arr := [1, 2, 3];\n    let fa: [3]i32 = [4, 5, 6];\n    let m := {\"a\" => 1, \"b\" => 2} as map[str]i32;\n    let f := fn(u: i32, v: i32) -> i32 {\n        return u * v;\n    };\n    for i, v in arr {\n        io::Println(f(i, v));\n    }\n    io::Println(p.x, q.y);\n}\n",
+		"match": "import \"std/io\";\n\ntype E enum { A, B, C };\n\nfn pick(e: E, k: i32) -> i32 {\n    match e {\n        E::A => { return 1; }\n        E::B => { return 2; }\n        _ => { return k; }\n    }\n}\n\nfn main() {\n    let t: struct { .P: i32, .Q: i32 } = { .P = 1, .Q = 2 };\n    io::Println(pick(E::B, t.P));\n}\n",
+	}
+	repl := []struct{ name, text string }{{"semicolon", ";"}, {"nothing", ""}, {"colon", ":"}, {"open-brace", "{"}, {"close-brace", "}"}, {"open-paren", "("}, {"dot", "."}, {"arrow", "=>"}, {"double-comma", ",,"}}
+	var names []string
+	for n := range templates {
+		names = append(names, n)
+	}
+	sort.Strings(names)
+	var out []hostile
+	for _, n := range names {
+		src := templates[n]
+		k := 0
+		for i := 0; i < len(src); i++ {
+			if src[i] != ',' {
+				continue
+			}
+			k++
+			for _, rp := range repl {
+				out = append(out, hostile{id: fmt.Sprintf("separator-matrix:%s:comma%d:%s", n, k, rp.name), class: "separator-matrix",
+					files: map[string]string{"main.fer": src[:i] + rp.text + src[i+1:]}})
+			}
+		}
+	}
+	return out
+}
+
 func checkC13(c *Ctx) error {
 	r := c.R
-	r.Rule = "hostile inputs: random bytes, UTF-8 noise, prefix truncations (byte and token boundaries), 1-3 token deletions/duplications/swaps/insertions/replacements of corpus programs (smoke_test, examples), token soup, nesting depth up to 400, encoding oddities (CRLF, BOM, NUL, 10 KB identifiers, 3000-digit numbers, unterminated strings/comments), multi-file projects with missing/self/cyclic/malformed/late/duplicate imports, and a directed matrix of 28 non-canonical import path spellings x 7 ways of using (or clashing with) the import alias; inputs <= 16 KiB. Every input runs through the real compiler (in-process pool: type-check and wasm targets; real CLI: native target for a share of the inputs and for every suspicious one). non-trivial = a distinct input whose outcome record satisfied every predicate (no crash, CPU budget, exit status in {0,1} and consistent with the diagnostics, artifact consistent, locations inside input files)"
+	r.Rule = "hostile inputs: random bytes, UTF-8 noise, prefix truncations (byte and token boundaries), 1-3 token deletions/duplications/swaps/insertions/replacements of corpus programs (smoke_test, examples), token soup, nesting depth up to 400, encoding oddities (CRLF, BOM, NUL, 10 KB identifiers, 3000-digit numbers, unterminated strings/comments), multi-file projects with missing/self/cyclic/malformed/late/duplicate imports, a directed matrix of 28 non-canonical import path spellings x 7 ways of using (or clashing with) the import alias, and a separator matrix (every comma of struct / enum / union / interface / parameter / argument / literal / map / loop-variable lists replaced by one of nine other tokens); inputs <= 16 KiB. Every input runs through the real compiler (in-process pool: type-check and wasm targets; real CLI: native target for a share of the inputs and for every suspicious one). non-trivial = a distinct input whose outcome record satisfied every predicate (no crash, CPU budget, exit status in {0,1} and consistent with the diagnostics, artifact consistent, locations inside input files)"
 	r.Assumptions = []string{"CPU budget 20 s per <=16 KiB input (>=30x the worst observed)", "a wall-clock watchdog firing is inconclusive, not a violation", "diagnostics pointing into the bundled library files count as inside an input file"}
 	corpus := c13Corpus(c.Env.Repo)
 	n := c.N(600, 20000)
@@ -379,6 +412,7 @@ func checkC13(c *Ctx) error {
 	}
 	hs = append(pins, hs...)
 	hs = append(c13ImportMatrix(), hs...)
+	hs = append(c13SeparatorMatrix(), hs...)
 	// stage 1: pool, type-check + wasm
 	var jobs []core.Job
 	dirs := make([]string, len(hs))
